@@ -72,6 +72,33 @@ def gen_unit(ctx, ty):
     return '\n'.join(lines) + '\n'
 
 
+def gen_linked(ctx):
+    """a set of units that hand strings to each other (service names to the pod and to referrers, object names to referrers):
+    text that reaches a service from *another* unit than the one it is generated for"""
+    rnd = ctx.rnd
+    def nasty():
+        v = rnd.choice(NASTY)
+        return v if '/' not in v else 'n\\nb'
+    def opt(k, p=0.6):
+        return [f'{k}={nasty()}'] if rnd.random() < p else []
+    g = {}
+    g['p.pod'] = '\n'.join(['[Pod]'] + opt('PodName', 0.3) + opt('ServiceName', 0.3)) + '\n'
+    g['v.volume'] = '\n'.join(['[Volume]'] + opt('VolumeName') + opt('ServiceName', 0.3)) + '\n'
+    g['n.network'] = '\n'.join(['[Network]'] + opt('NetworkName') + opt('ServiceName', 0.3)) + '\n'
+    g['i.image'] = '\n'.join(['[Image]', 'Image=quay.io/x/y'] + opt('ImageTag') + opt('ServiceName', 0.3)) + '\n'
+    g['b.build'] = '\n'.join(['[Build]', 'File=/opt/Containerfile', 'ImageTag=' + (nasty() if rnd.random() < 0.6 else 'localhost/t')] + opt('ServiceName', 0.3)) + '\n'
+    for c in ('m1', 'm2'):
+        g[c + '.container'] = '\n'.join(['[Container]', 'Image=' + rnd.choice(['localhost/img', 'i.image', 'b.build']), 'Pod=p.pod'] + opt('ServiceName') + opt('ContainerName', 0.4)
+                                        + (['StartWithPod=' + rnd.choice(['yes', 'no'])] if rnd.random() < 0.3 else [])) + '\n'
+    g['r.container'] = '\n'.join(['[Container]', 'Image=' + rnd.choice(['i.image', 'b.build']), 'Volume=v.volume:/d', 'Network=n.network', 'Network=m1.container',
+                                  'Mount=type=volume,source=v.volume,dst=/m']) + '\n'
+    g['w.volume'] = '[Volume]\nDriver=image\nImage=' + rnd.choice(['i.image', 'b.build']) + '\n'
+    for k in rnd.sample(sorted(g), rnd.randint(0, 3)):
+        if k not in ('p.pod', 'r.container', 'm1.container'):
+            del g[k]
+    return g
+
+
 def corr_ops(ctx):
     rnd = ctx.rnd
     ctx._c06 = []
@@ -146,6 +173,9 @@ def oracle(ctx):
                 seen.add(os.path.basename(name))
                 group[name] = text
         batch.append(group)
+    linked = [gen_linked(ctx) for _ in range(160 if ctx.thorough else 40)]
+    linked_ids = {id(g) for g in linked}
+    batch += linked
 
     def run(group):
         base = e2e.fresh_dir()
@@ -171,12 +201,22 @@ def oracle(ctx):
                     services[fn] = open(p, 'rb').read().decode('utf-8', 'replace')
         import shutil
         shutil.rmtree(base, ignore_errors=True)
-        return base, ok, rc, services, se
+        return base, ok, rc, services, se, id(group) in linked_ids
     results = e2e.pmap(run, batch)
-    for base, group, rc, services, se in results:
+    for base, group, rc, services, se, is_linked in results:
         names = list(group)
-        ops = [f'convert\t0\t0\t{hx(base + "/src/" + n)}\t{hx(group[n])}' for n in names]
-        built = ctx.impl(ops)
+        if is_linked:
+            # one conversion of the whole set, in one of the orders of the main loop: what the generator built for every unit
+            order = G.sorted_order(rnd, names, ctx.tables)
+            op1 = 'convert\t0\t' + ','.join(map(str, order)) + ''.join(f'\t{hx(base + "/src/" + n)}\t{hx(group[n])}' for n in names)
+            a1 = ctx.impl([op1])[0]
+            parts = a1[3:].split(' | ') if a1.startswith('ok ') else []
+            by = {names[i]: 'ok ' + p for i, p in zip(order, parts)}
+            ops = [op1 for n in names]
+            built = [by.get(n, 'err') for n in names]
+        else:
+            ops = [f'convert\t0\t0\t{hx(base + "/src/" + n)}\t{hx(group[n])}' for n in names]
+            built = ctx.impl(ops)
         svc_names = {}
         for n, op, a in zip(names, ops, built):
             r = canon.parse_convert(a)[0]
@@ -201,7 +241,9 @@ def oracle(ctx):
             secs, err = e2e.line_reader(text)
             def cx(entries):
                 # the order of option groups derived from name=value keys is unspecified (HashMap) and differs between runs
-                return [(k, canon.canon_exec(v) if k.startswith('Exec') else v) for k, v in entries]
+                es = [(k, canon.canon_exec(v) if k.startswith('Exec') else v) for k, v in entries]
+                # members register with their pod in processing order, which the unstable sort leaves open among containers
+                return sorted(es) if is_linked else es
             want = [(sec, cx(r[2][sec])) for sec in r[3]]
             if err or [(a, cx(b)) for a, b in secs] != want:
                 res.oracle_failures.append(dict(op=op, input=group[n], impl_output=text,
